@@ -86,7 +86,7 @@ def impl_main(payload):
     orc = dict(checks=0, viol=[], samples=[])
     rng = random.Random(payload["seed"])
     eqs = ["C_0*X_0 + C_1", "C_0*X_0*X_0 + C_1*X_1 + C_2", "sin(C_0*X_0) + C_1*X_1", "C_0*exp(C_1*X_0) + X_1",
-           "C_0/(X_0*X_0 + 2.0) + C_1*X_1*X_0", "X_0*X_1 + C_0"]
+           "C_0/(X_0*X_0 + 2.0) + C_1*X_1*X_0", "X_0*X_1 + C_0", "X_0", "X_1"]
     for r in range(payload["oracle_runs"]):
         s = rng.randrange(10 ** 6)
         rs = np.random.RandomState(s)
@@ -97,19 +97,28 @@ def impl_main(payload):
         eq = eqs[r % len(eqs)]
         for metric in ("mae", "mse", "rmse", "negative nmll laplace"):
             for rel in (False, True):
-                fit = ExplicitRegression(ExplicitTrainingData(x, y), metric=metric, relative=rel)
+                # the fitness function gets its own copies of the data: the reference below uses the pristine arrays, and the
+                # data held by the fitness function must still equal them after every call (a bare variable evaluates to a VIEW of x)
+                fit = ExplicitRegression(ExplicitTrainingData(x.copy(), y.copy()), metric=metric, relative=rel)
                 g = AGraph(equation=eq)
                 L = g.get_number_local_optimization_params()
                 c0 = rs.uniform(-1.5, 1.5, size=L)
                 g.set_local_optimization_params(c0)
                 for phase in (0, 1):
                     if phase == 1:            # same-sized data set with a different y (what RandomSubsetEvaluation does)
-                        fit.training_data = ExplicitTrainingData(x, y2)
+                        fit.training_data = ExplicitTrainingData(x.copy(), y2.copy())
                     yy = y if phase == 0 else y2
                     cnt = fit.eval_count
                     val = float(fit(g))
                     if fit.eval_count != cnt + 1:
                         orc["viol"].append("__call__ changed eval_count by %d" % (fit.eval_count - cnt))
+                    val_again = float(fit(g))
+                    if not (val_again == val or (math.isnan(val) and math.isnan(val_again))):
+                        orc["viol"].append("%s%s fitness of %s is %r on the first call and %r on the second (seed %d)"
+                                           % (metric, " relative" if rel else "", eq, val, val_again, s))
+                    if not (np.array_equal(fit.training_data.x, x) and np.array_equal(fit.training_data.y, yy)):
+                        orc["viol"].append("evaluating %s with %s%s changed the training data held by the fitness function (seed %d)"
+                                           % (eq, metric, " relative" if rel else "", s))
                     e = (g.evaluate_equation_at(x) - yy)
                     if rel:
                         e = e / yy
@@ -130,7 +139,7 @@ def impl_main(payload):
                         orc["viol"].append("get_fitness_and_gradient changed eval_count by %d" % (fit.eval_count - cnt))
                     if not (abs(float(v2) - val) <= 1e-12 * (1 + abs(val))):
                         orc["viol"].append("fitness returned with the gradient (%r) differs from __call__ (%r)" % (v2, val))
-                    if metric == "mae" and np.min(np.abs(e)) < 1e-3:
+                    if L == 0 or (metric == "mae" and np.min(np.abs(e)) < 1e-3):
                         continue
                     h = 1e-6
                     fd = []
